@@ -160,6 +160,10 @@ func runC13(p *eng.Prog, r *eng.Report, tier string) {
 	// ---- C13.6 / C13.7 over the core packages ----------------------------------------------------
 	wrapAliasing(c, "C13.6", []string{"stanza.", "stream."})
 	c.r.Floor("C13.7", "enumeration methods examined", enumExhaustive(c, "C13.7", []string{"stanza", "stream"}), 1)
+	// C13.8 decoder typestate in the core stanza / stream error decoders
+	decoderSkipTypestate(c, "C13.8", func(f *eng.Fn) bool {
+		return strings.HasPrefix(f.Short, "stanza.") || strings.HasPrefix(f.Short, "stream.") || strings.HasPrefix(f.Short, "internal/saslerr.")
+	}, 3)
 }
 
 // c13Discipline: every formatted/raw write goes to a whitelisted destination.
